@@ -4,18 +4,18 @@ CONSTANTS
   Tag <- Tag2
   RevTag <- Rev2
   DaySteps <- Days1
-  ReadFaultKinds <- RF_unreadable
+  ReadFaultKinds <- RF_none
   Delta = 10
   AgeCap = 91
-  MaxRefresh = 3
-  MaxRestarts = 0
-  MaxWriteFaults = 0
-  MaxReadFaults = 1
+  MaxRefresh = 2
+  MaxRestarts = 1
+  MaxWriteFaults = 1
+  MaxReadFaults = 0
   AllowSoleRecordLoss = FALSE
   AllowIntraSetCollision = FALSE
   AllowContinueAfterVolatile = TRUE
   RelevantSignersOnly = TRUE
 SPECIFICATION Spec
-VIEW View
-INVARIANTS RevokedNeverAgain
+VIEW DirView
+INVARIANTS D_BootMarkerOnly
 CHECK_DEADLOCK FALSE
